@@ -173,6 +173,12 @@ class TwinsFam(Family):
             body = ["next"] * 40 + ["drain 500", "jumpend 20"] + ["next"] * 22
             named.append((f"twice-{n}-{t}-{k}-{v}", [f"gen {n} {t} {k} {v}", "lp"] + body + [f"gen {n} {t} {k} {v}", "lp"] + body
                           + [f"gen {n} {t} {k} {v}", f"shuffle {sd} ?"] + body + [f"gen {n} {t} {k} {v}", f"shuffle {sd} ?"] + body))
+        # the same for seeds a caller might treat specially (0 = "no seed given", -1, the extremes): a shuffle
+        # with the same seed yields the same order, whatever the seed
+        for sd in (0, 1, -1, 2**63 - 1, -2**63):
+            n, t, k, v = rng.choice([(3, 1, 2, 2), (4, 0, 2, 2), (4, 1, 2, 2)])
+            body = ["next"] * 12 + ["drain 200"] + ["next"] * 6
+            named.append((f"twice-seed-{sd}", [f"gen {n} {t} {k} {v}", f"shuffle {sd} ?", "lp"] + body + [f"gen {n} {t} {k} {v}", f"shuffle {sd} ?", "lp"] + body))
         # shuffle twice / shuffle in mid-stream
         for (n, t, k, v) in [(3, 1, 2, 2), (4, 1, 2, 2), (3, 0, 3, 3)]:
             s1, s2 = rng.randrange(0, 2**31), rng.randrange(0, 2**31)
